@@ -315,66 +315,6 @@ func genTsRun(g *fact.Gen) {
 		return g.Src(setup.Body.List[0]) == "defercatchFailNow(func(){ts.t.FailNow()})", true, ""
 	})
 
-	// ---- doCmdCmp
-	dc := g.Method(cmd, "TestScript", "doCmdCmp")
-	dcSrc := body(dc)
-	shape("updateCondFlagAndNotEnv", "doCmdCmp: the update test is `ts.params.UpdateScripts && !env`.", true, func() (bool, bool, string) {
-		if dc == nil {
-			return false, false, "func doCmdCmp not found"
-		}
-		if !strings.Contains(dcSrc, "ts.params.UpdateScripts") {
-			return false, false, "no UpdateScripts test in doCmdCmp"
-		}
-		return strings.Contains(dcSrc, "ifts.params.UpdateScripts&&!env{"), true, ""
-	})
-	shape("updateAfterNegAndEq", "doCmdCmp: the `if neg { … return }` and `if eq { return }` statements precede the update test.", true, func() (bool, bool, string) {
-		if dc == nil {
-			return false, false, "func doCmdCmp not found"
-		}
-		return ordered(dcSrc, "eq:=text1==text2", "ifneg{ifeq{ts.Fatalf(", "}return}ifeq{return}", "ifts.params.UpdateScripts"), true, ""
-	})
-	shape("updateKeyIsAbsName2", "doCmdCmp: the entry is looked up as `ts.scriptFiles[absName2]`, `absName2 := ts.MkAbs(name2)`.", true,
-		present(dc, "doCmdCmp", "name1,name2:=args[0],args[1]", "absName2:=ts.MkAbs(name2)", "ifscriptFile,ok:=ts.scriptFiles[absName2];ok{"))
-	shape("updateStoresText1", "doCmdCmp: `ts.scriptUpdates[scriptFile] = text1` followed by `return`.", true,
-		present(dc, "doCmdCmp", "text1:=ts.ReadFile(name1)", "ts.scriptUpdates[scriptFile]=text1return"))
-
-	// ---- applyScriptUpdates
-	runSrc := body(run)
-	shape("applyDeferredAfterSetup", "run: `defer ts.applyScriptUpdates()` is registered after `ts.setup()`.", true, func() (bool, bool, string) {
-		if run == nil {
-			return false, false, "func run not found"
-		}
-		if !strings.Contains(runSrc, "deferts.applyScriptUpdates()") {
-			return false, false, "applyScriptUpdates is not deferred in run"
-		}
-		return ordered(runSrc, "script:=ts.setup()", "deferts.applyScriptUpdates()"), true, ""
-	})
-	au := g.Method(ts, "TestScript", "applyScriptUpdates")
-	shape("applyNoopWhenEmpty", "applyScriptUpdates returns at once when `len(ts.scriptUpdates) == 0`.", true, func() (bool, bool, string) {
-		if au == nil || len(au.Body.List) == 0 {
-			return false, false, "func applyScriptUpdates not found"
-		}
-		return g.Src(au.Body.List[0]) == "iflen(ts.scriptUpdates)==0{return}", true, ""
-	})
-	shape("applyQuotesWhenNeeded", "applyScriptUpdates: `if txtar.NeedsQuote(data) { data1, err := txtar.Quote(data); if err != nil { ts.Fatalf … } data = data1 }`.", true,
-		present(au, "applyScriptUpdates", "data:=[]byte(content)iftxtar.NeedsQuote(data){data1,err:=txtar.Quote(data)iferr!=nil{ts.Fatalf(", "}data=data1}f.Data=data"))
-	shape("updateFatalCaught", "applyScriptUpdates protects its Fatalf with a deferred catchFailNow (false: the failNow panic escapes).", true, func() (bool, bool, string) {
-		if au == nil {
-			return false, false, "func applyScriptUpdates not found"
-		}
-		for _, st := range au.Body.List {
-			if _, isFor := st.(*ast.RangeStmt); isFor {
-				break
-			}
-			if d, ok := st.(*ast.DeferStmt); ok && g.Src(d) == "defercatchFailNow(func(){ts.t.FailNow()})" {
-				return true, true, ""
-			}
-		}
-		return false, true, ""
-	})
-	shape("applyWritesFormat", "applyScriptUpdates writes `txtar.Format(ts.archive)` to ts.file.", true,
-		present(au, "applyScriptUpdates", "os.WriteFile(ts.file,txtar.Format(ts.archive),"))
-
 	// ---- cmd/testscript
 	rrun := g.Method(cli, "runT", "Run")
 	rrSrc := body(rrun)
